@@ -27,3 +27,16 @@ SPEC = dict(
 
 def run(tier, seed):
     return svlib.run_spec(SPEC, tier, seed)
+
+MANIFEST = dict(
+    claimed=True,
+    technique="Lean 4 theorem: byte-level model of the Forc.lock source-string / dependency-line parsers and to_graph with every Rust "
+              "slice/index/unwrap an explicit panic outcome, proved panic-free for ALL strings + differential correspondence",
+    text="proof: C21_no_panic (every source string, any behaviour of the external url/cid/semver parsers), C21_depline_no_panic "
+         "(every dependency line), toGraph_no_panic (every list of lock records: the map index always finds its key) hold of the "
+         "model of the code AFTER the fix: commit dae01da; tied to the real Pinned::from_str / Lock::from_path + to_graph by "
+         "20k (quick) / 400k (thorough) random and mutated lock texts under catch_unwind (outcome class and parsed value compared).",
+    note="trusted: Lean kernel + propext/Quot.sound; TOML deserialisation, gix_url, cid, semver are parameters (assumed not to "
+         "panic; observed under catch_unwind); harness generator. The unchanged upstream code violated the property (panics on "
+         "\"foo\", \"git+foo\", \"b (\", …) — repaired by fix: dae01da, listed as fixed in known_findings.json.",
+)
